@@ -89,6 +89,7 @@ inductive HStep
   | add (c a b : String)                     -- c = a + b   (also np.add)
   | invert (c a : String)                    -- c = ~a
   | lshift (c a : String) (n : Nat)          -- c = a << n
+  | rshiftKeep (c a : String) (n : Nat)      -- c = a >> n with shifting = 'trunc' / 'keep' (deep copy of a, shifted codes)
   | index (v a : String) (i : Nat)           -- v = a[i]  (row view of a 2-D object)
   | write (a : String) (vs : List Rat)       -- a(vs): whole-value write (new buffer)
   | windex (a : String) (i : Nat) (v : Rat)  -- a[i] = v: in place
@@ -139,6 +140,10 @@ def Heap.step (h : Heap) : HStep → Heap
     | some x =>
       let (g, cs) := lshiftExpand x.fmt (h.codes x) n
       h.alloc c g x.rows x.cols defaultCfg clean cs
+  | .rshiftKeep c a n =>
+    match h.find a with
+    | none => h
+    | some x => h.alloc c x.fmt x.rows x.cols (h.cfgOf x) (h.flagsOf x) (rshiftKeep (h.codes x) n)
   | .index v a i =>
     match h.find a with
     | none => h
